@@ -1,4 +1,4 @@
-import RsMatterVerif.Lemmas.Admin
+import RsMatterVerif.Lemmas.AdminHist
 /-!
 # C08 — commissioning under the fail-safe is all-or-nothing
 
@@ -8,17 +8,23 @@ Model: `Model/Admin.lean` (transliteration of `failsafe.rs` and of the handler g
    `only_failsafe_context`, `csr_once`, `root_once`, `noc_once`): the credential commands are accepted
    exactly when the specification table (written below from the property text) says so - prescribed
    order, once each, only from the session context the fail-safe is bound to.
-2. **Coherence invariant** (`coherent_always`): after every fault-free history node and store agree on
-   every fabric except the one the fail-safe is armed for (and on the networks while idle).
+2. **Coherence invariant, store faults included** (`coherent_always_faults`): after EVERY history
+   (factory reset excluded) node and store agree on every fabric except the one the fail-safe is
+   armed for and the *dirty* ones - a fabric-scoped write outside the fail-safe that was answered with
+   a store error - and on the networks while idle.  `coherent_always`: nothing dirty ⇒ `Coh`.
 3. **Rollback restores** (`rollback_restores`, `restart_restores`): when the fail-safe ends by expiry
    (timer, ArmFailSafe(0), RevokeCommissioning - all three run `expire`) or by a restart, node and
-   store agree on every fabric and on the networks, and the rollback itself writes no fabric / network key.
-4. **Commit is joint** (`commit_is_joint`): after an acknowledged CommissioningComplete node and store
-   agree and the fail-safe is disarmed.
-
-Hypotheses of 2-4 (`SafeHist`): no injected store fault and AddNOC over a not yet promoted PASE
-session.  Both exclusions are real: see the open findings `C08-complete-not-atomic` and
-`C08-failsafe-context-switch`; the full statements are kept as `C08_full_*`.
+   store agree on the fail-safe's fabric, on every clean fabric and on the networks, and the
+   rollback itself writes no fabric / network key.
+4. **Commit is joint** (`commit_is_joint`): an acknowledged CommissioningComplete leaves node and
+   store equal and the fail-safe disarmed; `failed_complete_stays_armed`: a CommissioningComplete that
+   is answered with an error leaves the fail-safe armed (so that it rolls back or can be retried).
+5. The plain statement "idle ⇒ node = store" (`C08_full_coherent_always`) is refuted
+   (`C08_full_coherent_always_false`: a failing ACL write outside a fail-safe stays in memory) and
+   proved under the decidable exclusion `dirtyRun … = []` (`coherent_when_clean`); the all-or-nothing
+   rollback statement without the store-quiet hypothesis (`C08_full_rollback`) is refuted by the
+   replay of the open finding `C08-complete-partial-commit` (`C08_full_rollback_false`) and proved
+   under `StoreQuiet` (`rollback_restores_state_before_arming`).
 -/
 namespace C08
 open Admin
@@ -64,6 +70,12 @@ def freeIdx (n : Node) : Option Nat :=
   if maxIdx n.fabrics < 254 then some (maxIdx n.fabrics + 1)
   else (List.range 255).find? (fun i => 1 ≤ i && !hasFabric n i)
 
+/-- the fail-safe context holds a deferred fabric-scoped change -/
+def deferredOf (n : Node) : Bool :=
+  match n.fs with
+  | none => false
+  | some a => a.deferred
+
 def specAddNoc (cfg : Cfg) (n : Node) (mode : Mode) (ca fid subj : Nat) : Bool :=
   inContext n mode
   && ((flagsOf n).root && (flagsOf n).addCsr)
@@ -71,6 +83,7 @@ def specAddNoc (cfg : Cfg) (n : Node) (mode : Mode) (ca fid subj : Nat) : Bool :
   && isNodeId subj && decide (ca = n.staged)
   && !(n.fabrics.any (fun f => f.fid = fid && f.ca = n.staged))
   && (freeIdx n).isSome && decide (n.fabrics.length < cfg.maxFabrics)
+  && !(decide (mode.fab ≠ 0) && deferredOf n)
   && (match mode with
       | .pase 0 => true
       | .pase _ => false
@@ -108,7 +121,7 @@ theorem updnoc_accept_iff (cfg : Cfg) (n : Node) (sid s node ser : Nat) (mode : 
 theorem addnoc_accept_iff (cfg : Cfg) (n : Node) (sid s ca fid node subj ser : Nat) (mode : Mode) :
     (sessOp cfg n sid mode (.addnoc s ca fid node subj ser)).2.accepted = true ↔
       specAddNoc cfg n mode ca fid subj = true := by
-  unfold sessOp specAddNoc inContext flagsOf checkArmed checkState freeIdx
+  unfold sessOp specAddNoc inContext flagsOf deferredOf checkArmed checkState freeIdx
   cases hfs : n.fs with
   | none => simp [Status.accepted]
   | some a =>
@@ -135,7 +148,7 @@ theorem only_failsafe_context (cfg : Cfg) (n : Node) (sid : Nat) (mode : Mode) (
   · have := (root_accept_iff cfg n sid s c mode).mp hacc
     simp only [specRoot, Bool.and_eq_true] at this; exact this.1
   · have := (addnoc_accept_iff cfg n sid s c f nd a r mode).mp hacc
-    simp only [specAddNoc, Bool.and_eq_true] at this; exact this.1.1.1.1.1.1.1.1
+    simp only [specAddNoc, Bool.and_eq_true] at this; exact this.1.1.1.1.1.1.1.1.1
   · have := (updnoc_accept_iff cfg n sid s nd r mode).mp hacc
     simp only [specUpdNoc, Bool.and_eq_true] at this; exact this.1.1.1.1
 
@@ -191,28 +204,54 @@ theorem root_once (cfg : Cfg) (n : Node) (sid s s' ca ca' : Nat) (mode : Mode)
 
 /-! ## coherence, rollback, commit -/
 
-/-- **Coherence invariant**: from the factory-fresh node, after every fault-free history, node and
-store agree on every fabric except the one the fail-safe is armed for, and on the networks while no
-fail-safe is armed. -/
-theorem coherent_always (cfg : Cfg) (ops : List Op) (hs : SafeHist cfg {} ops) :
-    Coh (run cfg {} ops) :=
-  (run_coh cfg ops {} coh_init rfl hs).1
+/-- **Coherence invariant, store faults included**: from the factory-fresh node, after EVERY history
+without factory reset - any command order, any session, key-value store failures at any write - node
+and store agree on every fabric except the one the fail-safe is armed for and the dirty ones, and on
+the networks while no fail-safe is armed. -/
+theorem coherent_always_faults (cfg : Cfg) (ops : List Op) (hno : Op.freset ∉ ops) :
+    CohD (run cfg {} ops) (dirtyRun cfg {} [] ops) :=
+  run_cohD cfg ops {} [] coh_init hno
+
+/-- nothing dirty ⇒ coherence proper -/
+theorem coherent_always (cfg : Cfg) (ops : List Op) (hno : Op.freset ∉ ops)
+    (hclean : dirtyRun cfg {} [] ops = []) : Coh (run cfg {} ops) := by
+  have := coherent_always_faults cfg ops hno
+  rw [hclean] at this
+  exact this
+
+/-- the statement of `C08_full_coherent_always` under its precise exclusion: no factory reset and
+nothing dirty (both decidable on the history) -/
+theorem coherent_when_clean (cfg : Cfg) (ops : List Op) (hno : Op.freset ∉ ops)
+    (hclean : dirtyRun cfg {} [] ops = []) (hidle : (run cfg {} ops).fs = none) : Agree (run cfg {} ops) :=
+  agree_of_cohD_idle (coherent_always cfg ops hno hclean) hidle
+
+/-- the exclusion is satisfiable, also by histories WITH store faults: a fault that hits
+CommissioningComplete (first write) leaves nothing dirty, the fail-safe armed, and the retry commits -/
+example :
+    let ops : List Op := [.boot, .pase, .arm 0 60, .csr 0 false, .root 0 1, .addnoc 0 1 5 10 100 1,
+      .caseEst 1 100 1, .kvfail 1, .complete 1, .complete 1, .acl 1 200]
+    Op.freset ∉ ops ∧ dirtyRun {} {} [] ops = [] ∧ (run {} {} ops).fs = none ∧
+    (run {} {} ops).kv.fabs.length = 1 := by
+  refine ⟨by decide, by decide, by decide, by decide⟩
 
 /-- **Rollback restores** (expiry by timer, `ArmFailSafe(0)`, `RevokeCommissioning` - all of them run
-`FailSafe::expire` followed by the purge of the resumption cache): after a fault-free history, if the
-expiry succeeds then the fail-safe is disarmed, node and store agree on EVERY fabric (identity,
-NOC, ACL, groups, label) and on the networks, and the rollback wrote no fabric / network key - the
-node is back to what the store held, i.e. to what had been committed. -/
-theorem rollback_restores (cfg : Cfg) (ops : List Op) (hs : SafeHist cfg {} ops) (a : Armed) (exp : Option Nat)
+`FailSafe::expire` followed by the purge of the resumption cache): after any history, if the expiry
+succeeds then the fail-safe is disarmed, node and store agree on the fail-safe's fabric, on every
+fabric that is not dirty and on the networks, and the rollback wrote no fabric / network key. -/
+theorem rollback_restores (cfg : Cfg) (ops : List Op) (hno : Op.freset ∉ ops) (a : Armed) (exp : Option Nat)
     (harmed : (run cfg {} ops).fs = some a)
-    (hok : (expireAndPurge cfg (run cfg {} ops) a exp).2 = none) :
-    Agree (expireAndPurge cfg (run cfg {} ops) a exp).1 ∧
+    (hok : (expireArmed cfg (run cfg {} ops) a exp).2.1 = none) :
+    CohD (expireAndPurge cfg (run cfg {} ops) a exp).1 (dirtyRun cfg {} [] ops) ∧
     (expireAndPurge cfg (run cfg {} ops) a exp).1.fs = none ∧
+    (a.fab ≠ 0 → getFabric (expireAndPurge cfg (run cfg {} ops) a exp).1 a.fab = kvF (run cfg {} ops).kv a.fab) ∧
+    ((expireAndPurge cfg (run cfg {} ops) a exp).1.nets, (expireAndPurge cfg (run cfg {} ops) a exp).1.managed) =
+      kvNets (run cfg {} ops).kv ∧
     (expireAndPurge cfg (run cfg {} ops) a exp).1.kv.fabs = (run cfg {} ops).kv.fabs ∧
     (expireAndPurge cfg (run cfg {} ops) a exp).1.kv.nets = (run cfg {} ops).kv.nets := by
-  have ⟨hc, hf⟩ := run_coh cfg ops {} coh_init rfl hs
-  have ⟨h1, h2, _, h4, h5⟩ := expireAndPurge_agree cfg _ a exp hc harmed hf hok
-  exact ⟨h1, h2, h4, h5⟩
+  have hc := coherent_always_faults cfg ops hno
+  have ⟨h1, h2, h3, h4⟩ := expireAndPurge_cohD cfg _ _ a exp hc harmed
+  have ⟨h5, h6, h7⟩ := h4 hok
+  exact ⟨h1, h5, h6, h7, h2, h3⟩
 
 /-- the expiry can only fail when the fabric table is full at the moment the stored copy is put back
 (which cannot happen after the slot was just freed); in particular it does NOT fail when the
@@ -230,14 +269,77 @@ theorem restart_restores (n : Node) (kv : KV) (hist : List KV) :
   have ⟨h1, h2, _, _, _, h6⟩ := restartFrom_agree n kv hist
   exact ⟨h1, h2, h6⟩
 
-/-- **Commit is joint**: after a fault-free history, an acknowledged CommissioningComplete leaves the
-fail-safe disarmed and node and store in agreement on every fabric and on the networks. -/
-theorem commit_is_joint (cfg : Cfg) (ops : List Op) (hs : SafeHist cfg {} ops) (sid s : Nat) (mode : Mode)
+/-- **Commit is joint**: after any history, an acknowledged CommissioningComplete leaves the
+fail-safe disarmed, the committed fabric equal in node and store, the networks equal, and every
+clean fabric equal. -/
+theorem commit_is_joint (cfg : Cfg) (ops : List Op) (hno : Op.freset ∉ ops) (sid s : Nat) (mode : Mode)
     (hack : (sessOp cfg (run cfg {} ops) sid mode (.complete s)).2 = .ok) :
-    Agree (sessOp cfg (run cfg {} ops) sid mode (.complete s)).1 ∧
-    (sessOp cfg (run cfg {} ops) sid mode (.complete s)).1.fs = none := by
-  have ⟨hc, hf⟩ := run_coh cfg ops {} coh_init rfl hs
-  exact (sessOp_complete_agree cfg _ sid s mode hc hf).2 hack
+    CohD (sessOp cfg (run cfg {} ops) sid mode (.complete s)).1 (dirtyRun cfg {} [] ops) ∧
+    (sessOp cfg (run cfg {} ops) sid mode (.complete s)).1.fs = none ∧
+    getFabric (sessOp cfg (run cfg {} ops) sid mode (.complete s)).1 mode.fab =
+      kvF (sessOp cfg (run cfg {} ops) sid mode (.complete s)).1.kv mode.fab ∧
+    (getFabric (sessOp cfg (run cfg {} ops) sid mode (.complete s)).1 mode.fab).isSome = true ∧
+    ((sessOp cfg (run cfg {} ops) sid mode (.complete s)).1.nets,
+     (sessOp cfg (run cfg {} ops) sid mode (.complete s)).1.managed) =
+      kvNets (sessOp cfg (run cfg {} ops) sid mode (.complete s)).1.kv := by
+  have hc := coherent_always_faults cfg ops hno
+  have ⟨h1, h2⟩ := sessOp_complete_cohD cfg _ _ sid s mode hc
+  have ⟨h3, h4, h5⟩ := h2 hack
+  exact ⟨h1, h3, h4, h5, h1.2.1 h3⟩
+
+/-- a CommissioningComplete that is NOT acknowledged (wrong context, store failure at either write)
+leaves the fail-safe exactly as it was - armed: it rolls back at the expiry or can be retried
+(fixed finding `C08-complete-not-atomic`) -/
+theorem complete_ok_or_unchanged (cfg : Cfg) (n : Node) (sid s : Nat) (mode : Mode) :
+    (sessOp cfg n sid mode (.complete s)).2 = .ok ∨
+    ((sessOp cfg n sid mode (.complete s)).1.fs = n.fs ∧
+     (sessOp cfg n sid mode (.complete s)).1.sessions = n.sessions ∧
+     (sessOp cfg n sid mode (.complete s)).1.window = n.window) := by
+  simp only [sessOp]
+  split
+  · exact Or.inr ⟨rfl, rfl, rfl⟩
+  · split
+    · exact Or.inr ⟨rfl, rfl, rfl⟩
+    · cases hg : getFabric n mode.fab with
+      | none => exact Or.inr ⟨rfl, rfl, rfl⟩
+      | some f =>
+        simp only []
+        have ⟨hfr1, _⟩ := storeFabric_spec n f
+        have hw1 : (storeFabric n f).1.window = n.window := by
+          unfold storeFabric kvTick kvCommit
+          by_cases f0 : n.failIn = 0
+          · simp [f0]
+          · by_cases f1 : n.failIn = 1
+            · simp [f1]
+            · simp [f0, f1]
+        rcases hr1 : storeFabric n f with ⟨n1, b1⟩
+        rw [hr1] at hfr1 hw1
+        simp only at hfr1 hw1
+        cases b1 with
+        | false => exact Or.inr ⟨hfr1.fs, hfr1.sessions, hw1⟩
+        | true =>
+          simp only []
+          have ⟨hfr2, _⟩ := storeNets_spec { n1 with managed := true }
+          have hw2 : (storeNets { n1 with managed := true }).1.window = n1.window := by
+            unfold storeNets kvTick kvCommit
+            by_cases f0 : n1.failIn = 0
+            · simp [f0]
+            · by_cases f1 : n1.failIn = 1
+              · simp [f1]
+              · simp [f0, f1]
+          rcases hr2 : storeNets { n1 with managed := true } with ⟨n2, b2⟩
+          rw [hr2] at hfr2 hw2
+          simp only at hfr2 hw2
+          cases b2 with
+          | false => exact Or.inr ⟨hfr2.fs.trans hfr1.fs, hfr2.sessions.trans hfr1.sessions, hw2.trans hw1⟩
+          | true => exact Or.inl rfl
+
+theorem failed_complete_stays_armed (cfg : Cfg) (n : Node) (sid s : Nat) (mode : Mode)
+    (hfail : (sessOp cfg n sid mode (.complete s)).2 ≠ .ok) :
+    (sessOp cfg n sid mode (.complete s)).1.fs = n.fs ∧
+    (sessOp cfg n sid mode (.complete s)).1.sessions = n.sessions ∧
+    (sessOp cfg n sid mode (.complete s)).1.window = n.window :=
+  (complete_ok_or_unchanged cfg n sid s mode).resolve_left hfail
 
 /-- the commands of the commissioning in progress never write to the store: CSRRequest,
 AddTrustedRootCertificate, AddNOC, UpdateNOC, network changes and (re-)arming leave every key alone
@@ -247,28 +349,56 @@ theorem commissioning_ops_keep_store (cfg : Cfg) (n : Node) (sid : Nat) (mode : 
            (∃ s c f nd a r, op = .addnoc s c f nd a r) ∨ (∃ s nd r, op = .updnoc s nd r) ∨
            (∃ s v, op = .net s v) ∨ (∃ s v, op = .rmnet s v) ∨ (∃ s t, op = .arm s t ∧ t ≠ 0)) :
     (sessOp cfg n sid mode op).1.kv = n.kv ∧ (sessOp cfg n sid mode op).1.hist = n.hist := by
-  rcases hop with ⟨s, u, rfl⟩ | ⟨s, c, rfl⟩ | ⟨s, c, f, nd, a, r, rfl⟩ | ⟨s, nd, r, rfl⟩ | ⟨s, v, rfl⟩ | ⟨s, v, rfl⟩ | ⟨s, t, rfl, ht⟩
-  all_goals simp only [sessOp]
-  all_goals repeat' split
-  all_goals first | exact ⟨rfl, rfl⟩ | (exfalso; omega) | skip
+  refine sessOp_store_untouched cfg n sid mode op ?_
+  rcases hop with h | h | h | h | h | h | h
+  · exact Or.inl h
+  · exact Or.inr (Or.inl h)
+  · exact Or.inr (Or.inr (Or.inl h))
+  · exact Or.inr (Or.inr (Or.inr (Or.inl h)))
+  · exact Or.inr (Or.inr (Or.inr (Or.inr (Or.inl h))))
+  · exact Or.inr (Or.inr (Or.inr (Or.inr (Or.inr (Or.inl h)))))
+  · exact Or.inr (Or.inr (Or.inr (Or.inr (Or.inr (Or.inr (Or.inl h))))))
 
-/-- an ACL write of the fabric the fail-safe is armed for is deferred: the store is not touched -/
+/-- an ACL write of the fabric the fail-safe is armed for is deferred: the store is not touched, and
+the fail-safe context remembers it -/
 theorem deferred_acl_keeps_store (cfg : Cfg) (n : Node) (sid s v : Nat) (mode : Mode)
-    (harm : armedFor n mode.fab = true) : (sessOp cfg n sid mode (.acl s v)).1.kv = n.kv := by
-  simp only [sessOp]
+    (harm : armedFor n mode.fab = true) (hacc : (sessOp cfg n sid mode (.acl s v)).2 = .ok) :
+    (sessOp cfg n sid mode (.acl s v)).1.kv = n.kv ∧ deferredOf (sessOp cfg n sid mode (.acl s v)).1 = true := by
+  simp only [sessOp] at hacc ⊢
   split
-  · rfl
-  · cases hg : getFabric n mode.fab with
-    | none => rfl
+  · rename_i h0; simp [h0] at hacc
+  · rename_i h0
+    simp only [h0, if_false] at hacc
+    cases hg : getFabric n mode.fab with
+    | none => rw [hg] at hacc; simp at hacc
     | some f =>
+      rw [hg] at hacc
       have hidx := getFabric_idx hg
-      simp only []
+      simp only [] at hacc ⊢
       split
-      · rfl
+      · rename_i hfull; simp [hfull] at hacc
       · have h2 : armedFor (setFabric n { f with acl := f.acl ++ [v] }) f.idx = true := by
           rw [hidx]; exact harm
         simp only [h2, if_true, ok]
-        rfl
+        have ⟨a, ha, _⟩ := (armedFor_iff (setFabric n { f with acl := f.acl ++ [v] }) f.idx).mp h2
+        unfold markDeferred deferredOf
+        rw [ha]
+        exact ⟨rfl, rfl⟩
+
+/-- (fixed finding `C08-failsafe-context-switch`) AddNOC is refused while the context, bound to an
+existing fabric, holds a deferred change: the context is not re-bound, so the change is rolled back
+or committed with it -/
+theorem addnoc_refused_while_deferred (cfg : Cfg) (n : Node) (sid s ca fid node subj ser : Nat) (mode : Mode)
+    (hfab : mode.fab ≠ 0) (hdef : deferredOf n = true) :
+    (sessOp cfg n sid mode (.addnoc s ca fid node subj ser)).2.accepted = false := by
+  cases hacc : (sessOp cfg n sid mode (.addnoc s ca fid node subj ser)).2.accepted with
+  | false => rfl
+  | true =>
+    have := (addnoc_accept_iff cfg n sid s ca fid node subj ser mode).mp hacc
+    simp only [specAddNoc, Bool.and_eq_true, Bool.not_eq_true', Bool.and_eq_false_iff] at this
+    rcases this.1.2 with h | h
+    · simp [hfab] at h
+    · rw [hdef] at h; cases h
 
 /-- no operation of the list writes a fabric key or the networks key -/
 def StoreQuiet (cfg : Cfg) : Node → List Op → Prop
@@ -287,39 +417,44 @@ theorem storeQuiet_run (cfg : Cfg) (ops : List Op) : ∀ (n : Node), StoreQuiet 
     show (run cfg (step cfg n op).1 rest).kv.fabs = n.kv.fabs ∧ (run cfg (step cfg n op).1 rest).kv.nets = n.kv.nets
     exact ⟨by rw [h1, h.1], by rw [h2, h.2.1]⟩
 
-/-- **Exactly what they were before arming.**  Take a quiescent state `q` reached by a fault-free
-history, then any fault-free history `ops1` (arming, credential commands, deferred writes, network
-changes, session establishments, time …) during which nothing is committed to the fabric / network
-keys, then a successful expiry: every fabric record (identity, NOC, ACL, groups, label) and the
-networks of the node are exactly those of `q`, and the fail-safe is idle. -/
+instance decStoreQuiet (cfg : Cfg) : (n : Node) → (ops : List Op) → Decidable (StoreQuiet cfg n ops)
+  | _, [] => isTrue trivial
+  | n, op :: rest =>
+    have := decStoreQuiet cfg (step cfg n op).1 rest
+    by simp only [StoreQuiet]; infer_instance
+
+/-- **Exactly what they were before arming.**  Take a quiescent clean state `q` reached by any
+history, then any history `ops1` (arming, credential commands, deferred writes, network changes,
+session establishments, time, store faults …) during which nothing is committed to the fabric /
+network keys and nothing gets dirty, then a successful expiry: every fabric record (identity, NOC,
+ACL, groups, label) and the networks of the node are EXACTLY those of `q`, and the fail-safe is idle. -/
 theorem rollback_restores_state_before_arming (cfg : Cfg) (ops0 ops1 : List Op)
-    (hs0 : SafeHist cfg {} ops0) (hidle : (run cfg {} ops0).fs = none)
-    (hs1 : SafeHist cfg (run cfg {} ops0) ops1) (hq : StoreQuiet cfg (run cfg {} ops0) ops1)
+    (hno0 : Op.freset ∉ ops0) (hno1 : Op.freset ∉ ops1)
+    (hclean0 : dirtyRun cfg {} [] ops0 = []) (hidle : (run cfg {} ops0).fs = none)
+    (hclean1 : dirtyRun cfg (run cfg {} ops0) [] ops1 = [])
+    (hq : StoreQuiet cfg (run cfg {} ops0) ops1)
     (a : Armed) (exp : Option Nat)
     (harmed : (run cfg (run cfg {} ops0) ops1).fs = some a)
-    (hok : (expireAndPurge cfg (run cfg (run cfg {} ops0) ops1) a exp).2 = none) :
+    (hok : (expireArmed cfg (run cfg (run cfg {} ops0) ops1) a exp).2.1 = none) :
     (∀ i, i ≠ 0 → getFabric (expireAndPurge cfg (run cfg (run cfg {} ops0) ops1) a exp).1 i =
                   getFabric (run cfg {} ops0) i) ∧
     ((expireAndPurge cfg (run cfg (run cfg {} ops0) ops1) a exp).1.nets,
      (expireAndPurge cfg (run cfg (run cfg {} ops0) ops1) a exp).1.managed) =
       ((run cfg {} ops0).nets, (run cfg {} ops0).managed) ∧
     (expireAndPurge cfg (run cfg (run cfg {} ops0) ops1) a exp).1.fs = none := by
-  have ⟨hc0, hf0⟩ := run_coh cfg ops0 {} coh_init rfl hs0
-  have hag0 := agree_of_coh_idle hc0 hidle
-  have ⟨hc1, hf1⟩ := run_coh cfg ops1 _ hc0 hf0 hs1
+  have hc0 : Coh (run cfg {} ops0) := coherent_always cfg ops0 hno0 hclean0
+  have hag0 := agree_of_cohD_idle hc0 hidle
+  have hc1 := run_cohD cfg ops1 _ [] hc0 hno1
+  rw [hclean1] at hc1
   have ⟨hk1, hk2⟩ := storeQuiet_run cfg ops1 _ hq
-  have ⟨hag, hfs, _, h4, h5⟩ := expireAndPurge_agree cfg _ a exp hc1 harmed hf1 hok
+  have ⟨hcd, h2, h3, h4⟩ := expireAndPurge_cohD cfg _ [] a exp hc1 harmed
+  have ⟨hfs, _, _⟩ := h4 hok
+  have hag := agree_of_cohD_idle hcd hfs
   refine ⟨fun i hi => ?_, ?_, hfs⟩
   · rw [hag.1 i hi, hag0.1 i hi]
-    simp only [kvF, h4, hk1]
+    simp only [kvF, h2, hk1]
   · rw [hag.2, hag0.2]
-    simp only [kvNets, h5, hk2]
-
-instance decStoreQuiet (cfg : Cfg) : (n : Node) → (ops : List Op) → Decidable (StoreQuiet cfg n ops)
-  | _, [] => isTrue trivial
-  | n, op :: rest =>
-    have := decStoreQuiet cfg (step cfg n op).1 rest
-    by simp only [StoreQuiet]; infer_instance
+    simp only [kvNets, h3, hk2]
 
 /-- the hypotheses of `rollback_restores_state_before_arming` are satisfiable: a commissioned node
 (`ops0`), then ArmFailSafe over CASE, a deferred ACL write, CSRRequest(update), UpdateNOC, a network
@@ -328,23 +463,111 @@ example :
     let ops0 : List Op := [.boot, .pase, .arm 0 60, .csr 0 false, .root 0 1, .addnoc 0 1 5 10 100 1,
       .caseEst 1 100 1, .complete 1]
     let ops1 : List Op := [.arm 1 60, .acl 1 200, .csr 1 true, .updnoc 1 11 2, .net 1 3]
-    SafeHist {} {} ops0 ∧ (run {} {} ops0).fs = none ∧ SafeHist {} (run {} {} ops0) ops1 ∧
-    StoreQuiet {} (run {} {} ops0) ops1 ∧
+    Op.freset ∉ ops0 ∧ Op.freset ∉ ops1 ∧ dirtyRun {} {} [] ops0 = [] ∧ (run {} {} ops0).fs = none ∧
+    dirtyRun {} (run {} {} ops0) [] ops1 = [] ∧ StoreQuiet {} (run {} {} ops0) ops1 ∧
     (∃ a, (run {} (run {} {} ops0) ops1).fs = some a ∧
-      (expireAndPurge {} (run {} (run {} {} ops0) ops1) a none).2 = none) := by
-  refine ⟨by decide, by decide, by decide, by decide, ⟨_, rfl, by decide⟩⟩
+      (expireArmed {} (run {} (run {} {} ops0) ops1) a none).2.1 = none) := by
+  refine ⟨by decide, by decide, by decide, by decide, by decide, by decide, ⟨_, rfl, by decide⟩⟩
 
-/-- the hypotheses are satisfiable: a complete commissioning is a `SafeHist` and ends in agreement -/
-example : SafeHist {} {} [.boot, .pase, .arm 0 60, .csr 0 false, .root 0 1, .addnoc 0 1 5 10 100 1,
-    .caseEst 1 100 1, .complete 1] := by
-  decide
+/-! ## the full statements -/
 
-example : (run {} {} [.boot, .pase, .arm 0 60, .csr 0 false, .root 0 1, .addnoc 0 1 5 10 100 1,
-    .caseEst 1 100 1, .complete 1]).kv.fabs.length = 1 := by decide
-
-/-- The statement without the two hypotheses; NOT provable for the code as it is (open findings
-`C08-complete-not-atomic`: store faults, `C08-failsafe-context-switch`: AddNOC over CASE). -/
+/-- "whenever no fail-safe is armed, node and store agree" - without any hypothesis on the history.
+FALSE of the code: a fabric-scoped write outside a fail-safe whose store write fails is answered with
+an error but stays in effect in memory (until the next restart). -/
 def C08_full_coherent_always : Prop :=
   ∀ (cfg : Cfg) (ops : List Op), (run cfg {} ops).fs = none → Agree (run cfg {} ops)
+
+theorem C08_full_coherent_always_false : ¬ C08_full_coherent_always := by
+  intro h
+  have hag := h {} [.boot, .pase, .arm 0 60, .csr 0 false, .root 0 1, .addnoc 0 1 5 10 100 1,
+    .caseEst 1 100 1, .complete 1, .kvfail 1, .acl 1 200] (by decide)
+  have := hag.1 1 (by decide)
+  revert this
+  decide
+
+/-- the all-or-nothing statement for the rollback WITHOUT the store-quiet hypothesis: if no command
+of the armed period was acknowledged as a commit (fabric-scoped write, RemoveFabric,
+CommissioningComplete), a successful expiry restores every fabric of the quiescent state before. -/
+def ackedCommit (cfg : Cfg) (n : Node) (op : Op) : Bool :=
+  match op with
+  | .acl .. | .grp .. | .label .. | .rmfab .. | .complete _ => (step cfg n op).2.accepted
+  | _ => false
+
+def NoAckedCommit (cfg : Cfg) : Node → List Op → Bool
+  | _, [] => true
+  | n, op :: rest => !ackedCommit cfg n op && NoAckedCommit cfg (step cfg n op).1 rest
+
+def C08_full_rollback : Prop :=
+  ∀ (cfg : Cfg) (ops0 ops1 : List Op) (a : Armed) (exp : Option Nat),
+    Op.freset ∉ ops0 → Op.freset ∉ ops1 → dirtyRun cfg {} [] ops0 = [] → (run cfg {} ops0).fs = none →
+    dirtyRun cfg (run cfg {} ops0) [] ops1 = [] → NoAckedCommit cfg (run cfg {} ops0) ops1 = true →
+    (run cfg (run cfg {} ops0) ops1).fs = some a →
+    (expireArmed cfg (run cfg (run cfg {} ops0) ops1) a exp).2.1 = none →
+    ∀ i, i ≠ 0 → getFabric (expireAndPurge cfg (run cfg (run cfg {} ops0) ops1) a exp).1 i =
+                  getFabric (run cfg {} ops0) i
+
+/-- FALSE of the code (open finding `C08-complete-partial-commit`): CommissioningComplete writes the
+fabric, then the networks; when the SECOND write fails the command is answered with an error and the
+fail-safe stays armed, but the fabric record is in the store - the expiry then "restores" it. -/
+theorem C08_full_rollback_false : ¬ C08_full_rollback := by
+  intro h
+  have := h {} [] [.boot, .pase, .arm 0 60, .csr 0 false, .root 0 1, .addnoc 0 1 5 10 100 1,
+    .caseEst 1 100 1, .kvfail 2, .complete 1]
+    { fab := 1, flags := { addCsr := true, root := true, addNoc := true }, timeout := 60, armedAt := 0 } none
+    (by decide) (by decide) (by decide) (by decide) (by decide) (by decide) (by decide) (by decide) 1 (by decide)
+  revert this
+  decide
+
+/-! ## RevokeCommissioning / OpenCommissioningWindow and the fail-safe -/
+
+/-- while a commissioning window is open, a fail-safe cannot be armed over a CASE session -/
+theorem case_arm_refused_while_window_open (cfg : Cfg) (n : Node) (sid s secs : Nat) (mode : Mode)
+    (hidle : n.fs = none) (hw : n.window.isSome = true) (hc : mode.isCase = true) (h0 : secs ≠ 0) :
+    sessOp cfg n sid mode (.arm s secs) = (n, .err "Busy") := by
+  simp [sessOp, h0, hidle, hw, hc]
+
+/-- an expiry that reports no error leaves the fail-safe idle -/
+theorem expire_ok_idle (cfg : Cfg) (n : Node) (exp : Option Nat) (h : (expire cfg n exp).2 = none) :
+    (expire cfg n exp).1.fs = none := by
+  unfold expire at h ⊢
+  cases hfs : n.fs with
+  | none => simp only []; exact hfs
+  | some a =>
+    simp only [hfs] at h ⊢
+    unfold expireAndPurge at h ⊢
+    cases hr : rollbackFabrics cfg n a with
+    | error e =>
+      have : expireArmed cfg n a exp = (n, some e, none) := by unfold expireArmed; simp [hr]
+      simp [this] at h
+    | ok fs =>
+      have hfsn : (expireArmed cfg n a exp).1.fs = none := by unfold expireArmed; simp [hr]
+      rcases hres : expireArmed cfg n a exp with ⟨n1, e, r⟩
+      rw [hres] at h hfsn
+      simp only at hfsn
+      cases e with
+      | some e => simp at h
+      | none =>
+        cases r with
+        | none => exact hfsn
+        | some idx =>
+          simp only [] at h ⊢
+          have p3 := (purgeResum_spec n1 idx).2.2.1
+          rcases hp : purgeResum n1 idx with ⟨n2, b⟩
+          rw [hp] at p3 h
+          cases b with
+          | true => simp only []; exact p3.trans hfsn
+          | false => simp at h
+
+/-- an acknowledged RevokeCommissioning ends the fail-safe (rolled back) and closes the window -/
+theorem revoke_ends_failsafe (cfg : Cfg) (n : Node) (sid s : Nat) (mode : Mode)
+    (hack : (sessOp cfg n sid mode (.revoke s)).2 = .ok) :
+    (sessOp cfg n sid mode (.revoke s)).1.fs = none ∧ (sessOp cfg n sid mode (.revoke s)).1.window = none := by
+  simp only [sessOp] at hack ⊢
+  have h1 := expire_ok_idle cfg n (some sid)
+  rcases hr : expire cfg n (some sid) with ⟨n1, e⟩
+  rw [hr] at hack h1
+  cases e with
+  | some e => simp at hack
+  | none => exact ⟨h1 rfl, rfl⟩
 
 end C08
